@@ -55,6 +55,7 @@ structure Field where
   ty : TRef
   req : List String
   args : List Arg
+  deprecated : Bool := false   -- `DeprecationReason != ""`
   deriving Repr, DecidableEq, Inhabited
 
 structure TypeDef where
@@ -66,6 +67,7 @@ structure TypeDef where
   members : List String      -- union: MemberTypes
   values : List String       -- enum
   inputs : List Arg          -- input object fields
+  deprecatedValues : List String := []   -- enum values with a `DeprecationReason`
   deriving Repr, DecidableEq, Inhabited
 
 structure Schema where
@@ -257,9 +259,10 @@ structure FieldSig where
   name : String
   ty : TRef
   args : List Arg
+  deprecated : Bool := false
   deriving Repr, DecidableEq, Inhabited
 
-def Field.sig (f : Field) : FieldSig := { name := f.name, ty := f.ty, args := f.args }
+def Field.sig (f : Field) : FieldSig := { name := f.name, ty := f.ty, args := f.args, deprecated := f.deprecated }
 
 /-- validator `namedType(s, features, name)` (type_info.go:19-24): feature-aware. -/
 def lookupF (S : Schema) (F : Feats) (n : String) : Option Kind :=
@@ -299,12 +302,14 @@ def getField (S : Schema) (F : Feats) (tn fn : String) : Option FieldSig :=
     else none
   | none => none
 
-/-- `__Type.fields` (introspection.go:230-262; `includeDeprecated` is not modelled). -/
-def fieldsListing (S : Schema) (F : Feats) (tn : String) : Option (List FieldSig) :=
+/-- `__Type.fields(includeDeprecated:)` (introspection.go:230-262): a field is listed when
+    `(DeprecationReason == "" || includeDeprecated) && RequiredFeatures.IsSubsetOf(ctx.Features)` —
+    the two tests are independent: a field that is deprecated *and* gated stays hidden. -/
+def fieldsListing (S : Schema) (F : Feats) (inc : Bool) (tn : String) : Option (List FieldSig) :=
   match S.find? tn with
   | some t =>
     if t.kind == .object || t.kind == .interface then
-      some ((t.fields.filter (fun f => reqOk F f.req)).map Field.sig)
+      some ((t.fields.filter (fun f => (!f.deprecated || inc) && reqOk F f.req)).map Field.sig)
     else none
   | none => none
 
@@ -343,10 +348,11 @@ def inputFields (S : Schema) (tn : String) : Option (List Arg) :=
   | some t => if t.kind == .input then some t.inputs else none
   | none => none
 
-/-- `__Type.enumValues`. -/
-def enumValues (S : Schema) (tn : String) : Option (List String) :=
+/-- `__Type.enumValues(includeDeprecated:)` (no feature test: enum values carry no features). -/
+def enumValues (S : Schema) (inc : Bool) (tn : String) : Option (List String) :=
   match S.find? tn with
-  | some t => if t.kind == .enum then some t.values else none
+  | some t =>
+    if t.kind == .enum then some (t.values.filter (fun v => inc || !t.deprecatedValues.contains v)) else none
   | none => none
 
 /-- validator `getPossibleTypes(s, features, t)` after fix 02. -/
@@ -420,11 +426,11 @@ structure View where
   typesListing : List String
   kindOf : String → Option Kind
   getField : String → String → Option FieldSig
-  fieldsListing : String → Option (List FieldSig)
+  fieldsListing : Bool → String → Option (List FieldSig)
   interfacesOf : String → Option (List String)
   possibleTypes : String → Option (List String)
   inputFields : String → Option (List Arg)
-  enumValues : String → Option (List String)
+  enumValues : Bool → String → Option (List String)
   spreadTypes : String → List String
   resolveCandidates : String → List String
   fragApplies : String → String → Bool
